@@ -4,6 +4,7 @@ CONSTANTS
   P = 7
   IdSeq <- Ids3
   Coefs = {1, 4}
+  FreshRedeal = FALSE
   HSet = {2}
-INVARIANTS TypeOK ShareValid GpkAgree RecoverUnique AnySubsetAnyOrder VerifiesUnderGpk
+INVARIANTS TypeOK ShareValid GpkAgree RecoverUnique AnySubsetAnyOrder VerifiesUnderGpk PiecesOnOnePolynomial GpkAllEqual
 CHECK_DEADLOCK FALSE
